@@ -69,9 +69,12 @@ def skeleton():
         for org in (0xfffe, 0x10000, 0x12345, 0x280000, 0x7fff0000):
             out.append(([("mn", "ORG", [A.hexn(org)]), ("mn", "DB", [A.num(1), A.num(2), A.num(3)]), ("label", "a"), ("mn", d, [A.ident("a"), A.ident("$"), A.num(0x1234)]), ("label", "b"), ("mn", d, [A.ident("b")])], "label-high-org"))
         out.append(([("mn", "DB", [A.num(7)]), ("mn", "RESB", [A.hexn(0x10000)]), ("label", "far"), ("mn", d, [A.ident("far"), A.ident("$")])], "label-after-64k"))
-    for s in [b"", b"a", b"hello", b"a,b", b"x;y", b"#z", b" sp ace ", b"it's", b"0x41", b"DB 1,2"]:
+    for s in [b"", b"a", b"hello", b"a,b", b"x;y", b"#z", b" sp ace ", b"it's", b"0x41", b"DB 1,2",
+              # strings are bytes: characters that take several bytes in the source text emit (and count as) all of them
+              "\u00e9".encode(), "\u65e5\u672c\u8a9e".encode(), "a\u00e9b\u20acc".encode(), "\uff71\uff72".encode(), "\U0001f600".encode()]:
         out.append(([("mn", "DB", [A.string(s)])], "str"))
         out.append(([("mn", "DB", [A.num(1), A.string(s), A.num(2)])], "str"))
+        out.append(([("mn", "ORG", [A.hexn(0x7c00)]), ("mn", "DB", [A.string(s)]), ("label", "after"), ("mn", "DW", [A.ident("after"), A.ident("$")])], "str-label"))
     for n in (1, 2, 4, 8, 16, 32):
         for res in range(n if n <= 16 else 5):
             out.append(([("mn", "DB", [A.num(i) for i in range(res)])] * (1 if res else 0) + [("mn", "ALIGNB", [A.num(n)]), ("mn", "DB", [A.num(0xAA)])], "alignb"))
